@@ -42,6 +42,10 @@ def gen_resubmit(ch, prof):
         flags.append("--successful" if s else "--no-successful")
         steps.append({"flags": flags})
     sc["resubmit"] = steps
+    # eager user: resubmits as soon as show-status says complete (the completing node and other
+    # batches may still be in the queue), instead of waiting until everything has left the queue
+    sc["resubmit_eager"] = g.flip(0.4)
+    sc["resubmit_delay"] = g.pick([0.0, 0.5, 3.0, 30.0])
     # refusal probes: resubmit-jobs on the incomplete submission
     if g.flip(0.4):
         kind = g.pick(["sbatch", "job_launch", "job_exit"])
@@ -59,6 +63,17 @@ class ResubmitDriver(Driver):
         self.steps = list(w.scenario.get("resubmit", []))
         self.pending = None
         self.history = []   # per resubmit command: dict(pre=..., vp=..., flags=...)
+
+    def on_status(self, sub, o):
+        w = self.w
+        if o.get("completed_now") and w.scenario.get("resubmit_eager") and self.steps and sub.out == w.output:
+            w.after(float(w.scenario.get("resubmit_delay", 0.0)), lambda: self._eager(), "user")
+
+    def _eager(self):
+        st = self.status()
+        if st and st.get("is_complete") and not any(v.alive and v.role == "resubmit-jobs" for v in self.w.vprocs):
+            self.w.probe("resubmit_eager")
+            self.after_complete(st)
 
     def after_complete(self, st):
         w = self.w
@@ -388,6 +403,8 @@ profiles.nontrivial = _nontrivial
 # C09 is also observed over cancel and resubmit histories (DESIGN.md 7.9)
 profiles.CHECKS["C09"]["profiles"] = [("clean_hpc", 0.5), ("cancel", 0.25), ("resubmit", 0.25)]
 profiles.CHECKS["C02"]["profiles"] = [("clean_hpc", 0.55), ("clean_local", 0.25), ("resubmit", 0.2)]
+profiles.CHECKS["C06"]["profiles"] = [("clean_hpc", 0.55), ("clean_local", 0.25), ("resubmit", 0.2)]
+profiles.RULES["C06"] = profiles.RULES["C06"].replace("as C01;", "as C01, plus resubmissions issued while old batches are still queued or running;")
 profiles.RULES["C02"] = profiles.RULES["C02"].replace("HPC and local mode;", "HPC and local mode, plus resubmission epochs (blockers that are rerun must have a new outcome);")
 profiles.RULES["C09"] = profiles.RULES["C09"].replace("as C01;", "as C01, plus cancel and resubmit histories;")
 
